@@ -212,6 +212,12 @@ def std_flow(R, mc_module, runs, trace_module, trace_consts, dev_ids, invariants
         R.drift += len(drift)
         R.viol += viol
         R.stale += stale
+        if trace_module == "Trace_Out":
+            # the same traces, second reading: every look-up event against spec/Lookup.tla (Trace_Lookup)
+            _, _, _, d2 = trace_run(R, "Trace_Lookup", cfg("TraceSpec", {}, post="Accepted"), traces, "TL_" + name)
+            R.drift += len(d2)
+            R.extra["lookup_events_validated"] = R.extra.get("lookup_events_validated", 0) + sum(1 for t in traces for line in open(t) if '"lookup_end"' in line)
+            R.extra.setdefault("lookup_drift_samples", []).extend(d2[:3])
         for k in known:
             for d in (k.get("devs") or ["?"]):
                 R.known.setdefault(d, k)
@@ -353,6 +359,24 @@ def check_C08(tier, replay=None):
     else:
         runs = [("MC_C08_d3", {"MaxDepth": "3", "Kinds": "<- AllKinds"}), ("MC_C08_d2x", {"MaxDepth": "2", "Kinds": "<- AllKindsX"})]
     std_flow(R, "MC_C08", runs, "Trace_Out", {"P": '"C08"'}, MEMBER_DEVS, ["Agreement", "BasePrefix", "Emit"])
+    # the look-up state machine itself (spec/Lookup.tla): every way up to four declared components refer to each other
+    lk_inv = ["TypeOK", "NoStandInIfValid", "AllComplete", "ResolvingExact", "PushedOnce", "BoundedWork"]
+    lk_runs = [("MC_Lookup_4x1", {"Comp": '{"c1","c2","c3","c4","k1"}', "Declared3": "<- Order4", "MaxRefs": "1", "Wide": "TRUE"})]
+    if tier != "quick":
+        lk_runs.append(("MC_Lookup_3x2", {"Comp": '{"c1","c2","c3","k1"}', "Declared3": "<- Order3", "MaxRefs": "2", "Wide": "FALSE"}))
+    for name, consts in lk_runs:
+        c = cfg("MCSpec", dict(consts, Dev="{}"), invariants=lk_inv, properties=["Terminates"])
+        res = z.tlc(os.path.join(z.SPEC, "mc", "MC_Lookup.tla"), c, workers=8, timeout=1500, name=name)
+        if not res["ok"]:
+            log(z.tlc_fail_summary(res))
+            raise z.ToolError(f"model checking of {name} did not complete cleanly")
+        R.add_mc(name, res)
+    # vacuity: the code before D36 (references resolved by value) and the seeded memo rule must break the invariants
+    for dv, inv in (("D36", "NoStandInIfValid"), ("memo_when_idle", "BoundedWork")):
+        c = cfg("MCSpec", dict(lk_runs[0][1], Dev='{"%s"}' % dv), invariants=[inv])
+        r2 = z.tlc(os.path.join(z.SPEC, "mc", "MC_Lookup.tla"), c, workers=4, timeout=600, name="MC_Lookup_no_" + dv)
+        if r2["ok"]:
+            raise z.ToolError(f"vacuity: deviation {dv} does not break {inv} in spec/Lookup.tla")
     R.extra["exhaustive"] = True
     return finish(R, "model_checking",
                   "every extension chain of the bounded space (depth 1..2 quick / 1..3 thorough; own content of every level in {empty, sequence, choice inside a sequence, attributes, sequence+attributes, and - at depth 1 quick / 2 thorough - a repeating choice as the whole content}; a tree (the root base refers to a global element that extends it); base-first / derived-first; root base in the same file or in an imported file of another namespace; a global element with the root base's name before / after it / absent) is one TLC state; each is generated by the real code and every derived struct is judged by TLC (base members first in order, own after, member namespaces, nothing lost or added)",
@@ -365,7 +389,7 @@ def check_C10(tier, replay=None):
     R = Result("C10", tier)
     shapes = ["two", "chain", "star", "diamond"]
     runs = [("MC_C10_" + sh, {"Shape": '"%s"' % sh, "Small": "TRUE" if tier == "quick" else "FALSE"}) for sh in shapes]
-    std_flow(R, "MC_C10", runs, "Trace_C10", {}, ("D06", "D06b", "D07"), ["RegistryInvariant", "AllModules", "Emit"])
+    std_flow(R, "MC_C10", runs, "Trace_C10", {}, ("D06", "D06b", "D07", "D38"), ["RegistryInvariant", "AllModules", "Emit"])
     R.extra["exhaustive"] = True
     # the writer's emission order (spec/Writer.tla), whose steps Trace_C10 matches against the emit hook events
     wres, _, _, _ = mc_run(R, "MC_Writer", cfg("MCSpec", {}, invariants=["HelpersLast", "HeaderFirst", "Balanced", "EverythingOnce"], properties=["Finishes"]), "MC_Writer", workers=4)
@@ -736,7 +760,7 @@ CHECKS = {"C01": check_C01, "C03": check_C03, "C04": check_C04, "C05": check_C05
 
 REPLAY = {
     "C02": ("Trace_Out", {"P": '"C02"'}, MEMBER_DEVS), "C08": ("Trace_Out", {"P": '"C08"'}, MEMBER_DEVS), "C09": ("Trace_Out", {"P": '"C09"'}, MEMBER_DEVS),
-    "C06": ("Trace_C06", {}, ("D20", "D21")), "C10": ("Trace_C10", {}, ("D06", "D06b", "D07")),
+    "C06": ("Trace_C06", {}, ("D20", "D21")), "C10": ("Trace_C10", {}, ("D06", "D06b", "D07", "D38")),
     "C11": ("Trace_C11", None, ("D03", "D04", "D28", "D28b")), "C12": ("Trace_C12", {}, ("D05",)),
     "C13": ("Trace_C13", {"Features": FEATURES}, ("D24a", "D24b", "D24c", "D24d", "D24e", "D03")),
     "C14": ("Trace_C14", {}, ("D25",)), "C15": ("Trace_C15", {}, ("D26",)), "C17": ("Trace_C17", {}, ("D01", "D02")),
